@@ -13,7 +13,12 @@ import (
 	"github.com/deckhouse/deckhouse/pkg/log"
 	"github.com/itchyny/gojq"
 	"github.com/prometheus/client_golang/prometheus"
+	"k8s.io/apimachinery/pkg/api/meta"
 	metav1 "k8s.io/apimachinery/pkg/apis/meta/v1"
+	k8sfields "k8s.io/apimachinery/pkg/fields"
+	"k8s.io/apimachinery/pkg/runtime"
+	dynfake "k8s.io/client-go/dynamic/fake"
+	clienttesting "k8s.io/client-go/testing"
 	"k8s.io/apimachinery/pkg/apis/meta/v1/unstructured"
 	"k8s.io/apimachinery/pkg/runtime/schema"
 
@@ -110,9 +115,52 @@ func Kind(v any) string {
 	}
 }
 
+// fieldFilter makes the fake dynamic client honour metadata.name / metadata.namespace field selectors
+// on list (client-go's fake ignores field selectors; a real API server does not).
+func fieldFilter(fc *fake.Cluster) {
+	fd, ok := fc.Client.Dynamic().(*dynfake.FakeDynamicClient)
+	if !ok {
+		return
+	}
+	react := clienttesting.ObjectReaction(fd.Tracker())
+	fd.PrependReactor("list", "*", func(action clienttesting.Action) (bool, runtime.Object, error) {
+		la, ok := action.(clienttesting.ListAction)
+		if !ok {
+			return false, nil, nil
+		}
+		fields := la.GetListRestrictions().Fields
+		if fields == nil || fields.Empty() {
+			return false, nil, nil
+		}
+		handled, obj, err := react(action)
+		if !handled || err != nil || obj == nil {
+			return handled, obj, err
+		}
+		items, err := meta.ExtractList(obj)
+		if err != nil {
+			return true, obj, nil
+		}
+		var kept []runtime.Object
+		for _, it := range items {
+			acc, err := meta.Accessor(it)
+			if err != nil {
+				continue
+			}
+			if fields.Matches(k8sfields.Set{"metadata.name": acc.GetName(), "metadata.namespace": acc.GetNamespace()}) {
+				kept = append(kept, it)
+			}
+		}
+		if err := meta.SetList(obj, kept); err != nil {
+			return true, obj, nil
+		}
+		return true, obj, nil
+	})
+}
+
 // NewCluster returns a fake cluster with namespaces created.
 func NewCluster(namespaces ...string) *fake.Cluster {
 	fc := fake.NewFakeCluster(fake.ClusterVersionV121)
+	fieldFilter(fc)
 	for _, ns := range namespaces {
 		fc.CreateNs(ns)
 	}
